@@ -14,6 +14,11 @@ ORACLE_OF = {
     'C03': ['attempt-reported-failed-and-retried-correctly', 'reference-applicable'],
     # fail-fast acts on the `failed` flag an attempt reports when it ends
     'C08': ['attempt-reported-failed-and-retried-correctly', 'no-panic-escapes-the-attempt', 'reference-applicable'],
+    # "every scenario handed to the runner is attempted": whatever the scenario consists of, an attempt has its Started ..
+    # Finished events, runs the steps there are and reports how it ended
+    'C04': ['canonical-event-sequence', 'attempt-reported-failed-and-retried-correctly', 'reference-applicable'],
+    # a retried @serial scenario stays serial: its next attempt is queued under the type it was dispatched as
+    'C07': ['next-attempt-queued-under-the-type-it-was-dispatched-as', 'reference-applicable'],
     'C10': ['no-panic-escapes-the-attempt', 'failed-events-carry-the-payload', 'canonical-event-sequence', 'attempt-reported-failed-and-retried-correctly'],
 }
 
@@ -26,6 +31,11 @@ def shapes(tier):
     # a feature background AND a rule background in front of the scenario's own step: the first step that does not pass
     # (wherever it sits) ends the steps of the attempt
     out.append(S(fbg=1, rbg=1, steps=1, before=False, after=False))
+    # nothing of its own: only the rule's background makes the scenario do anything (no hooks, no feature background)
+    out.append(S(fbg=0, rbg=1, steps=0, before=False, after=False))
+    # dispatched as Serial, with a delayed and with an immediate retry
+    out.append(S(fbg=0, rbg=0, steps=1, before=False, after=False, retries=(0, 1), delay=True, ty='Serial'))
+    out.append(S(fbg=0, rbg=0, steps=1, before=False, after=False, retries=(0, 1), ty='Serial'))
     if tier == 'thorough':
         out += [S(fbg=1, rbg=1, steps=2, before=True, after=True, retries=(1, 0)), S(fbg=2, rbg=0, steps=2, before=False, after=True),
                 S(fbg=0, rbg=0, steps=3, before=True, after=False, retries=(0, 2))]
@@ -252,6 +262,41 @@ def confirm_reused_resolution(chk, o, prop):
         o.detail += ' | reproduced natively through the real runner: `And dup` as a Given step then as a Then step (defined for Given only) gives %s' % evs
 
 
+def confirm_requeue_type(chk, o, prop):
+    """native: a @serial scenario and a concurrent one both fail once and are retried (with / without a delay) while a third
+    scenario keeps the runner busy; when it ends both retries are ready: the serial one must still run alone"""
+    import os
+    import re
+    from checks import replay
+    d = os.path.join(common.EVID, 'replay')
+    os.makedirs(d, exist_ok=True)
+    devs = []
+    for tag, after in (('delayed', '.after(30ms)'), ('immediate', '')):
+        lines = ['mode runner', 'hooks none', 'builder max_concurrent=4', 'feature', '| Feature: f', '|   @serial @retry(1)%s' % after, '|   Scenario: x', '|     Given sx',
+                 '|   @retry(1)%s' % after, '|   Scenario: y', '|     Given sy', '|   Scenario: long', '|     Given sl',
+                 'step sx fail_first=1 yields=6', 'step sy fail_first=1 yields=6', 'step sl busy_ms=300 yields=2']
+        path = os.path.join(d, '%s-requeue-type-%s.script' % (prop, tag))
+        res, out = replay.run_script('\n'.join(lines) + '\n', path, timeout=60)
+        chk.replays += 1
+        evs = [ln[7:].rsplit(' t=', 1)[0] for ln in out.splitlines() if ln.startswith('LOG EV ')]
+        xs = [i for i, e in enumerate(evs) if ':scenario[x]:started' in e]
+        xf = [i for i, e in enumerate(evs) if ':scenario[x]:finished' in e]
+        if res is None or len(xs) < 2 or len(xf) < 2:
+            continue
+        a, b = xs[1], xf[1]
+        between = [e for e in evs[a:b] if re.search(r':scenario\[(y|long)\]:', e)]
+        running = [n for n in ('y', 'long') if sum(1 for e in evs[:a] if ':scenario[%s]:started' % n in e) > sum(1 for e in evs[:a] if ':scenario[%s]:finished' % n in e)]
+        if between or running:
+            devs.append((path, '%s retry of the @serial scenario x: %s' % (tag, ('events of other scenarios inside its attempt: %s' % between[:2]) if between else ('%s still running when it starts' % running))))
+    if devs:
+        chk.replay_files.append(devs[0][0])
+        o.replay = devs[0][0]
+        o.detail += ' | reproduced natively through the real runner: %s' % devs[0][1]
+    else:
+        o.verdict = 'inconclusive'
+        o.detail += ' | not reproduced natively (the retried @serial scenario runs alone)'
+
+
 def confirm(chk, o, prop, name):
     """Native replay through the real runner (driver mode `runner`) of the violating shape and outcome choices."""
     import os
@@ -259,6 +304,8 @@ def confirm(chk, o, prop, name):
     from checks import replay
     if 'without consulting the step collection' in (o.detail or ''):
         return confirm_reused_resolution(chk, o, prop)
+    if name == 'next-attempt-queued-under-the-type-it-was-dispatched-as':
+        return confirm_requeue_type(chk, o, prop)
     shape, res = o.shape, o.res
     tl = res['timeline']
     hows = {}
